@@ -15,14 +15,24 @@ META = {
             "(null, bool, int -/0/+/huge, real, name expected/other, string, empty/short array, array of refs, dict, stream, ref to "
             "each object incl. self, dangling ref) and checks, per walker model transcribed from the code, that it reaches a final "
             "state within its variant, terminates (liveness) and never evaluates a partial operation; run 'as the code is' "
-            "(all nine confirmed deviations are repaired by fix: commits, every Dev_ switch off) the model yields no "
-            "counter-example, with the repaired defects seeded back it violates totality (negative control). Every enumerated document plus seeded "
+            "(the nine deviations repaired by fix: commits switched off, the three open depth deviations on) the model yields "
+            "exactly the three depth classes, with the repaired defects seeded back it violates totality (negative control). "
+            "Depth dimension: on long ACYCLIC chains through every followed link (Parent, First, Next, Kids, wide Kids, page-tree "
+            "Kids, Contents array, reference-to-reference chains) of every length around and beyond the modelled limits the walker "
+            "automata carry their recursion depth against a machine stack of StackFrames frames; a walker without a budget is "
+            "refuted by a behaviour whose stack grows with the chain, with the budgets (loop on Parent, depth limits on First/Kids) "
+            "TLC finds none, and the closed form of outcome and depth as a function of the length is checked against the automata. "
+            "The same families with 1 .. 100 000 links are run in lopdf on a 2 MiB thread stack. Every enumerated document plus seeded "
             "random chaos documents (<= 12 objects) is replayed into lopdf: all public read-only queries run in a child worker "
             "(panic, abort, stack overflow, hang are recorded per call) and the outcome must be a value or an error.",
     "note": "Oracle = absence of panic / abort / stack overflow / time-out, observed from outside the worker process. Exhaustive "
             "only inside the per-walker universes; the full product of all keys x all kinds is sampled (seeded). Documents are built "
             "in memory, not parsed. Filters, CMap and content-stream decoding inside the queries are exercised with four fixed "
-            "stream bodies only (properties C09/C14/C15 own those).",
+            "stream bodies only (properties C09/C14/C15 own those). Stack exhaustion is relative to a stack size: the chain "
+            "families run on a 2 MiB thread stack (Rust's default for spawned threads and rayon workers) in the harness's "
+            "release build; the model treats the capacity as an interval (1 000 .. 65 536 frames) and names a crash *.depth only "
+            "when the walker as the code is needs more than 1 000 frames on that chain. /Length chains are followed only by the "
+            "loader (not a read-only query; the family only checks that no query trips over them).",
     "design_ref": "DESIGN.md section 4 C13",
     "bins": ["c13"],
     "modules": ["Queries.tla", "MC_Queries.tla", "Trace_Queries.tla"],
@@ -34,7 +44,22 @@ ACTIONS = ["StepDeref", "StepCont", "StepRsrc", "StepNd", "StepOut", "StepToc", 
 # Trace_Queries.cfg); a missing one means the model went blind, an extra one that a switch is stale.  Empty since all
 # nine deviations (outline.next.cycle, outline.first.cycle, outline.dest.short, nameddest.kids.cycle, nameddest.D.absent,
 # nameddest.key.notstring, nameddest.val.short, images.colorspace.empty, pages.count.huge) are repaired in lopdf.
-MODEL_CLASSES = set()
+MODEL_CLASSES = {"resources.parent.depth", "outline.first.depth", "nameddest.kids.depth"}
+# These three are the depth dimension (long ACYCLIC chains: the cycle guards end cycles, nothing bounds the depth of the
+# recursion on Parent / First / Kids).  In the MC runs they are produced by scenario "chain" with the machine stack and the
+# budgets scaled down (StackFrames = 9 / 300): a prediction about the scale model, not about the enumerated document,
+# which lopdf handles on any real stack.  At real scale the families of `c13 chains` (10 .. 100 000 links on a 2 MiB
+# thread stack) show them.
+DEPTH_CLASSES = {"resources.parent.depth", "outline.first.depth", "nameddest.kids.depth"}
+NONE_VAL = {"k": "none", "n": 0, "s": "", "e": [], "d": []}
+
+
+def as_doc_rec(doc, obs, ran, res):
+    return {"fam": "", "len": 0, "doc": doc, "obs": obs, "ran": ran, "res": res}
+
+
+def as_fam_rec(r):
+    return {"fam": r["fam"], "len": r["len"], "doc": {"objs": [], "root": NONE_VAL}, "obs": r["obs"], "ran": True, "res": r["res"]}
 
 
 def dkey(doc):
@@ -113,7 +138,9 @@ def run(tier):
     quick = tier == "quick"
     chk.rule = ("documents enumerated by TLC (MC_Queries scenarios: every key a walker reads x every kind class, <= 4 objects) and "
                 "seeded random typed-chaos documents (<= 12 objects: random dictionaries and a well-formed 12-object skeleton with "
-                "1-4 bindings replaced by a random kind); each executed document = one evaluation (all public read-only queries on "
+                "1-4 bindings replaced by a random kind) and deterministic long-chain families (11 families x lengths 1 .. 100 000, "
+                "one evaluation each: 7 document-level + 14 per-object queries on the fixed objects, head, middle and end of the "
+                "chain); each executed document = one evaluation (all public read-only queries on "
                 "every object id); non-trivial = some object is a dictionary a per-object query entered or a reference chain exists; "
                 "distinct by canonical JSON of the document")
     chk.assumptions = [
@@ -121,6 +148,8 @@ def run(tier):
         "the harness's document builder (Val -> lopdf::Object) and the supervisor's time limit (a call that needs more than the "
         "limit, confirmed with 3x the limit when not predicted, counts as a hang)",
         "documents are in-memory values; integers near i64::MAX stand for the class 'huge'",
+        "a 2 MiB thread stack holds at least 1 000 and at most 65 536 frames of a recursive walker (measured: 175-770 bytes "
+        "per level in the release build)",
     ]
     w = workdir("c13")
     rng = random.Random(vlib.seed())
@@ -129,7 +158,8 @@ def run(tier):
     # ---------------------------------------------------------------- (M) model checking, three ways
     asis = ["MC_Queries_quick_asis.cfg"] + ([] if quick else ["MC_Queries_thorough_asis.cfg"])
     rep = ["MC_Queries_quick_repaired.cfg"] + ([] if quick else ["MC_Queries_thorough_repaired.cfg"])
-    jobs = [("asis", c) for c in asis] + [("rep", c) for c in rep] + [("cex", "MC_Queries_quick_cex.cfg")]
+    jobs = ([("asis", c) for c in asis] + [("rep", c) for c in rep] + [("cex", "MC_Queries_quick_cex.cfg")]
+            + [("dcex", "MC_Queries_depth_cex.cfg")])
     wk = 4 if quick else 8
 
     def mc(job):
@@ -138,9 +168,9 @@ def run(tier):
             return tlc("MC_Queries.tla", cfg, workers=wk, coverage=True, timeout=3000, xmx="4g" if quick else "8g")
         if kind == "rep":
             return tlc("MC_Queries.tla", cfg, workers=wk, timeout=3000, xmx="4g" if quick else "8g")
-        return tlc("MC_Queries.tla", cfg, workers=2, allow_violation=True, timeout=600)
+        return tlc("MC_Queries.tla", cfg, workers=2 if kind == "cex" else 1, allow_violation=True, timeout=600)
 
-    with ThreadPoolExecutor(max_workers=3 if quick else 5) as ex:
+    with ThreadPoolExecutor(max_workers=4 if quick else 6) as ex:
         results = list(ex.map(mc, jobs))
     cases = []
     states = transitions = 0
@@ -148,7 +178,7 @@ def run(tier):
         states += r.distinct
         transitions += r.generated
         if kind == "asis":
-            vlib.require_coverage(r, ACTIONS if "quick" in cfg else ["StepDeref", "StepNd", "StepOut"])
+            vlib.require_coverage(r, ACTIONS if "quick" in cfg else ["StepDeref", "StepNd", "StepOut", "StepRsrc"])
             cs = r.tagged("REPLAY")
             if not cs:
                 raise vlib.ToolError("MC run %s emitted no behaviours" % cfg)
@@ -157,6 +187,20 @@ def run(tier):
             # negative control of TotalInv: the nine repaired defects seeded back into the model (all Dev_ switches on)
             if r.violation != "TotalInv":
                 raise vlib.ToolError("the model with the repaired defects seeded back does not violate TotalInv (got %s)" % r.violation)
+        elif kind == "dcex":
+            # a walker without a depth budget must be refuted by a behaviour whose stack grows with the chain:
+            # the counter-example ends in overflow of a *.depth class with the whole machine stack in use
+            import re
+            last = r.raw[r.raw.rfind("\nState "):]
+            md = re.search(r"/\\ md = (\d+)", last)
+            ln = re.search(r"/\\ len = (\d+)", last)
+            cls = re.findall(r'cls \|-> "([\w.]*)"', last)
+            if r.violation != "TotalInv" or not md or not ln or not (set(cls) & DEPTH_CLASSES) or int(md.group(1)) < 8 \
+                    or int(ln.group(1)) <= int(md.group(1)):
+                raise vlib.ToolError("no depth counter-example: walkers without a budget are not refuted on the chain "
+                                     "scenario (violation %s, md %s, len %s, cls %s)" % (r.violation, md and md.group(1), ln and ln.group(1), cls))
+            chk.extra["mc_depth_counterexample"] = {"chain_length": int(ln.group(1)), "stack_depth_reached": int(md.group(1)),
+                                                    "class": sorted(set(cls) & DEPTH_CLASSES)}
     mc_classes = collections.Counter(c["cls"] for c in cases if c["pc"] not in ("ok", "err"))
     missing = MODEL_CLASSES - set(mc_classes)
     if missing:
@@ -177,6 +221,8 @@ def run(tier):
         if k not in by_doc:
             by_doc[k] = len(docs)
             docs.append({"doc": c["doc"], "preds": [], "src": "mc:" + c["sc"]})
+        if c["cls"] in DEPTH_CLASSES:
+            continue        # outcome on the scaled-down machine stack, see DEPTH_CLASSES
         docs[by_doc[k]]["preds"].append({"w": c["w"], "arg": c["arg"], "pc": c["pc"], "cls": c["cls"], "res": c["res"], "sc": c["sc"]})
     mrecs = [{"doc": d["doc"]} for d in docs]
     caps = {"hang": 1 if quick else 4, "overflow": 4 if quick else 25}
@@ -189,7 +235,7 @@ def run(tier):
     rdocs = read_ndjson(gpath)
     chunks = 3 if quick else 12
     pre, s1, t1 = vlib.validate_trace("Trace_Queries.tla", "Trace_Queries.cfg",
-                                      [{"doc": d["doc"], "obs": [], "ran": False, "res": {}} for d in rdocs],
+                                      [as_doc_rec(d["doc"], [], False, {}) for d in rdocs],
                                       "c13pre", boundaries=list(range(len(rdocs))), chunks=chunks)
     if len(pre) != len(rdocs):
         raise vlib.ToolError("prediction pass judged %d of %d documents" % (len(pre), len(rdocs)))
@@ -209,6 +255,17 @@ def run(tier):
     outs = read_ndjson(cout)
     if len(outs) != len(allrecs):
         raise vlib.ToolError("harness lost cases: %d of %d" % (len(outs), len(allrecs)))
+
+    # ---------------------------------------------------------------- (V2) long acyclic chains: deterministic families
+    fpath, fout = os.path.join(w, "chains.ndjson"), os.path.join(w, "chains.out.ndjson")
+    run_bin("c13", ["gen-chains", "--seed", vlib.seed(), "--tier", tier, "--out", fpath])
+    run_bin("c13", ["chains", "--in", fpath, "--out", fout, "--stack-kb", 2048, "--timeout-ms", 5000 if quick else 10000,
+                    "--mem-mb", 2048], timeout=3000)
+    fams = read_ndjson(fout)
+    if len(fams) != len(read_ndjson(fpath)):
+        raise vlib.ToolError("harness lost chain families")
+    if not all(any(f["fam"] == x and f["len"] >= 20000 for f in fams) for x in ("parent", "first", "kids", "next", "refchain")):
+        raise vlib.ToolError("vacuous chain families: no chain of >= 20 000 links for a followed link")
 
     # records for the judge: every executed random document, every executed document with an observation, a sample of the rest
     judged, jsrc = [], []
@@ -232,26 +289,35 @@ def run(tier):
                 elif not o["obs"]:
                     drift += 1          # the model predicts a failure lopdf does not show
         if i >= nmc or o["obs"] or i in keep:
-            judged.append({"doc": rec["doc"], "obs": o["obs"], "ran": True, "res": o["res"]})
+            judged.append(as_doc_rec(rec["doc"], o["obs"], True, o["res"]))
             jsrc.append(i)
     # (B) negative controls ride along: an injected observation must be rejected, with a generic (not a known) signature
     ctl = next((i for i in passing_mc if docs[i]["src"] == "mc:toc"), passing_mc[0] if passing_mc else None)
     if ctl is None:
         raise vlib.ToolError("no passing document for the negative control")
+    # ... and on the chain families: a crash of get_outlines on 50 000 SIBLINGS (a loop, no recursion) must not be taken
+    # for the First-depth class, a crash on 100 nested levels (well inside any stack) not either
+    fnext = next(f for f in fams if f["fam"] == "next" and f["len"] >= 20000)
+    fshort = next(f for f in fams if f["fam"] == "first" and f["len"] == 100)
+    inj = [{"q": "get_outlines", "id": 0, "kind": "crash", "msg": "injected"}]
     neg = [
-        {"doc": allrecs[ctl]["doc"], "ran": True, "res": outs[ctl]["res"],
-         "obs": [{"q": "get_page_fonts", "id": 1, "kind": "panic", "msg": "injected"}]},
-        {"doc": allrecs[ctl]["doc"], "ran": True, "res": outs[ctl]["res"],
-         "obs": [{"q": "get_outlines", "id": 0, "kind": "hang", "msg": "injected"}]},
+        as_doc_rec(allrecs[ctl]["doc"], [{"q": "get_page_fonts", "id": 1, "kind": "panic", "msg": "injected"}], True, outs[ctl]["res"]),
+        as_doc_rec(allrecs[ctl]["doc"], [{"q": "get_outlines", "id": 0, "kind": "hang", "msg": "injected"}], True, outs[ctl]["res"]),
+        as_fam_rec(dict(fnext, obs=inj)),
+        as_fam_rec(dict(fshort, obs=inj)),
     ]
-    verdicts, s2, t2 = vlib.validate_trace("Trace_Queries.tla", "Trace_Queries.cfg", judged + neg, "c13judge",
-                                           boundaries=list(range(len(judged) + len(neg))), chunks=chunks)
-    if len(verdicts) != len(judged) + len(neg):
-        raise vlib.ToolError("trace validator judged %d of %d records" % (len(verdicts), len(judged) + len(neg)))
-    nv = verdicts[len(judged):]
+    frecs = [as_fam_rec(f) for f in fams]
+    nj, nf = len(judged), len(frecs)
+    verdicts, s2, t2 = vlib.validate_trace("Trace_Queries.tla", "Trace_Queries.cfg", judged + frecs + neg, "c13judge",
+                                           boundaries=list(range(nj + nf + len(neg))), chunks=chunks)
+    if len(verdicts) != nj + nf + len(neg):
+        raise vlib.ToolError("trace validator judged %d of %d records" % (len(verdicts), nj + nf + len(neg)))
+    nv = verdicts[nj + nf:]
     ok_neg = (nv[0]["v"] == "bad" and nv[0]["sigs"] == ["get_page_fonts.panic"]
-              and nv[1]["v"] == "bad" and nv[1]["sigs"] == ["get_outlines.hang"])
-    chk.extra["negative_controls_rejected"] = 2 if ok_neg else 0
+              and nv[1]["v"] == "bad" and nv[1]["sigs"] == ["get_outlines.hang"]
+              and nv[2]["v"] == "bad" and nv[2]["sigs"] == ["get_outlines.crash"]
+              and nv[3]["v"] == "bad" and nv[3]["sigs"] == ["get_outlines.crash"])
+    chk.extra["negative_controls_rejected"] = 4 if ok_neg else 0
     if not ok_neg:
         raise vlib.ToolError("negative controls were not rejected as expected: %s" % nv)
 
@@ -266,6 +332,30 @@ def run(tier):
             seen_classes[sig] += 1
             chk.violation("C13:" + sig, {"doc": allrecs[i]["doc"], "query": ob["q"], "id": ob["id"], "outcome": ob["kind"],
                                          "msg": ob.get("msg", ""), "source": docs[i]["src"] if i < nmc else "random"})
+    # the chain families
+    fam_calls = 0
+    fam_fail = collections.Counter()
+    for v, f in zip(verdicts[nj: nj + nf], fams):
+        executed += 1
+        fam_calls += f["calls"]
+        chk.case("chain:%s:%d" % (f["fam"], f["len"]) if f["len"] >= 2 else None)
+        drift += v["drift"]
+        if v["v"].startswith("ok"):
+            continue
+        if len(v["sigs"]) != len(f["obs"]):
+            raise vlib.ToolError("verdict / observation mismatch in chain family %s/%d" % (f["fam"], f["len"]))
+        for sig, ob in zip(v["sigs"], f["obs"]):
+            seen_classes[sig] += 1
+            fam_fail[(f["fam"], sig)] = min(fam_fail.get((f["fam"], sig), 1 << 30), f["len"])
+            chk.violation("C13:" + sig, {"family": f["fam"], "chain_length": f["len"], "thread_stack_kb": f["stack_kb"],
+                                         "doc": "c13 chains family %s, %d links (objects 10..%d)" % (f["fam"], f["len"], 9 + f["len"]),
+                                         "query": ob["q"], "id": ob["id"], "outcome": ob["kind"], "msg": ob.get("msg", ""),
+                                         "source": "chains"})
+    chk.extra["chain_families"] = {
+        "families": sorted({f["fam"] for f in fams}), "lengths": sorted({f["len"] for f in fams}),
+        "documents": len(fams), "calls": fam_calls, "thread_stack_kb": 2048,
+        "shortest_failing_chain_by_family_and_signature": {"%s %s" % k: n for k, n in sorted(fam_fail.items())},
+    }
     chk.evaluations = executed
     chk.exhaustive = False
     chk.states = chk.extra.get("mc_states", 0) + s1 + s2
@@ -274,7 +364,7 @@ def run(tier):
     chk.extra.update({
         "trace_states": s1 + s2, "documents_enumerated_by_tlc": nmc, "documents_random": len(rrecs),
         "documents_executed": executed, "skipped_predicted_hang_or_overflow": nskip + nskip_r,
-        "records_judged_by_tlc": len(judged), "model_drift": drift,
+        "records_judged_by_tlc": len(judged) + nf, "model_drift": drift,
         "failing_calls_by_signature": dict(sorted(seen_classes.items())),
         "queries_per_document": "7 document-level + 14 per object id (ids 1..n and one dangling id)",
         "worker_limits": {"timeout_ms": timeout_ms, "address_space_mb": 1024},
@@ -288,6 +378,10 @@ def run(tier):
         i = passing_mc[0]
         chk.sample({"tlc_document": allrecs[i]["doc"], "model_predictions": [
             {k: p[k] for k in ("w", "arg", "pc", "cls")} for p in docs[i]["preds"]], "lopdf_results": outs[i]["res"]})
+    fbad = next((f for f in fams if f["obs"]), None)
+    if fbad is not None:
+        chk.sample({"chain_family": fbad["fam"], "links": fbad["len"], "thread_stack_kb": fbad["stack_kb"],
+                    "lopdf_observed": fbad["obs"][:4], "lopdf_results": fbad["res"]})
     ri = next((i for i in range(nmc, len(allrecs)) if outs[i]["ran"]), None)
     if ri is not None:
         chk.sample({"random_document_objects": allrecs[ri]["doc"]["objs"][:4], "lopdf_observed": outs[ri]["obs"][:3],
@@ -300,6 +394,13 @@ def replay(path):
     det = json.load(open(path))
     w = workdir("c13replay")
     cin, cout = os.path.join(w, "in.ndjson"), os.path.join(w, "out.ndjson")
+    if det["detail"].get("source") == "chains":
+        write_ndjson(cin, [{"fam": det["detail"]["family"], "len": det["detail"]["chain_length"]}])
+        run_bin("c13", ["chains", "--in", cin, "--out", cout, "--stack-kb", det["detail"]["thread_stack_kb"]])
+        o = read_ndjson(cout)[0]
+        print(json.dumps({"signature": det["signature"], "recorded": {k: det["detail"][k] for k in ("family", "chain_length", "query", "id", "outcome")},
+                          "now": o["obs"]}, indent=1))
+        return 0 if not o["obs"] else 1
     write_ndjson(cin, [{"doc": det["detail"]["doc"], "singles": True}])
     run_bin("c13", ["run", "--in", cin, "--out", cout, "--timeout-ms", 3000])
     o = read_ndjson(cout)[0]
